@@ -311,3 +311,253 @@ def triple_cut(ck, F, rule="TRIPLE-cut"):
         first = min(blocks)
         ok = all(b.dominates(first, x) or x == first for x in blocks)
         ck.ob(rule, "paste_from_clipboard|same-branch", ok, "the three cut updates are not on the same path", *b.loc(first))
+
+
+# ------------------------------------------------------------------------------------------------ C31 / C27
+CELL = "ironcalc_base::types::Cell"
+ERRORT = "ironcalc_base::expressions::token::Error"
+
+OWN_SPILL_EXCEPT = {
+    "apply_undo_diff_list[Diff::SetArrayValue]": "undo of an array formula clears exactly the width x height range recorded in the diff (the range the "
+                                                 "operation itself filled: a CSE range cannot contain foreign content) and restores old_values right after",
+    "paste_from_clipboard": "cut branch clears the anchor's stored block skipping freshly pasted cells; the stored block size is kept consistent "
+                            "by prepare_cell_for_user_input (typing over a spill cell resets the anchor), probe: type over a spill cell with "
+                            "evaluation paused, cut the anchor: the typed cell survives",
+}
+
+
+def spill_rules(ck, F, rule="SPILL"):
+    """Spill bookkeeping in set_cells_with_result / evaluate_cell / undo."""
+    sc = ck.need(F.one, "model::Model::set_cells_with_result")
+    # (1) both #SPILL! exits precede the first write of the dynamic branch: no Error::SPILL construction is reachable after an update_cell
+    spill_blocks = set()
+    for bi, si, s in sc.stmts():
+        rv = s["rv"]
+        if rv["k"] == "agg" and rv.get("adt") == ERRORT and rv.get("variant") == "SPILL":
+            spill_blocks.add(bi)
+        if rv["k"] == "use" and rv["o"].get("k") and "Error::SPILL" in str(rv["o"]["k"].get("d", "")):
+            spill_blocks.add(bi)
+    for bi, blk in enumerate(sc.blocks):
+        t = blk["t"]
+        if t["k"] == "call":
+            for a in t["args"]:
+                k = a.get("k")
+                if k and "Error::SPILL" in str(k.get("d", "")):
+                    spill_blocks.add(bi)
+    ups = sc.calls_to("Worksheet::update_cell")
+    ck.ob(rule, "set_cells_with_result|SPILL-exits-found", len(spill_blocks) >= 2, "expected the two #SPILL! exits (bounds, blocked), found %d" % len(spill_blocks), sc.file, sc.line)
+    after = set()
+    for bi, t in ups:
+        after |= sc.strictly_after(bi)
+    bad = spill_blocks & after
+    ck.ob(rule, "set_cells_with_result|no-SPILL-after-write", not bad,
+          "set_cells_with_result can decide #SPILL! after it already wrote spill cells: a partially written block would remain", sc.file, sc.line,
+          sample={"spill_exits": len(spill_blocks), "write_sites": len(ups)})
+    # (2) scan loop and write loop range over the same bounds
+    ranges = []
+    for bi, si, s in sc.stmts():
+        rv = s["rv"]
+        if rv["k"] == "agg" and rv.get("adt", "").endswith("ops::Range") and len(rv["ops"]) == 2:
+            ends = sources(sc, rv["ops"][1])
+            names = set()
+            for o in rv["ops"]:
+                p = op_place(o)
+            names = {x[1] for x in ends if x[0] == "param"}
+            # locals named array_width / array_height flow in through arithmetic; use their debug names
+            ranges.append((bi, frozenset(map(str, ends))))
+    from collections import Counter
+    cnt = Counter(r for _, r in ranges)
+    dyn = [r for r, n in cnt.items() if n >= 2]
+    ck.ob(rule, "set_cells_with_result|scan-and-write-same-bounds", len(dyn) >= 2,
+          "the blocking scan and the write loop of the dynamic branch do not iterate identical (row, column) ranges: a cell could be written without "
+          "having been checked", sc.file, sc.line, sample={"range_shapes": len(cnt), "shared_by_two_loops": len(dyn)})
+    # (3) who may construct spill cells
+    allowed = {"set_cells_with_result", "get_cell_from_excel", "clone", "decode_in_place"}
+    for p in sorted(F.body_paths()):
+        if '"variant":"SpillCell"' not in F._raw[p]:
+            continue
+        b = F.body(p)
+        n = sum(1 for _, _, s in b.stmts() if s["rv"]["k"] == "agg" and s["rv"].get("adt") == CELL and s["rv"].get("variant") == "SpillCell")
+        if not n:
+            continue
+        h = F.heads[p]
+        ck.ob(rule, "SpillCell-constructor|%s" % F.qname_of(p).split("::", 1)[-1], h["name"] in allowed,
+              "%s constructs Cell::SpillCell: spill cells may only be written by the evaluator (and the importer), otherwise a spill cell without anchor can exist"
+              % F.qname_of(p), h["file"], h["line"], sample={"constructor": F.qname_of(p), "sites": n})
+    # (4) ownership test before clearing cells of an anchor's stored block: a clean-up site is a cell_clear_contents call
+    #     nested in two loops (rows x columns) whose result is ignored; inside the same loop body there must be a read of
+    #     the `a` (anchor) field of a Cell::SpillCell (directly or in a closure created there) on which the call depends
+    from mir import loop_header_of, all_places as _ap
+    for qn in ("model::Model::evaluate_cell", "UserModel::apply_undo_diff_list", "UserModel::paste_from_clipboard"):
+        b = ck.need(F.one, qn)
+        fn = qn.rsplit("::", 1)[-1]
+        clears = b.calls_to("Worksheet::cell_clear_contents")
+        k = 0
+        for bi, t in clears:
+            h1 = loop_header_of(b, bi)
+            if h1 is None:
+                continue
+            # nested: the header itself lies in another loop
+            outer = None
+            for d in b.dominators_of(h1)[1:]:
+                if any(b.dominates(d, p_) for p_ in b.preds(d)):
+                    outer = d
+                    break
+            if outer is None:
+                continue
+            # result ignored (`let _ = ..`): the destination is never read
+            dest = t["dest"]["l"]
+            used = any(p_["l"] == dest and role == "r" for bj_, si_, p_, role in _ap(b)
+                       if not (si_ == "t" and b.term(bj_)["k"] == "drop") and not (si_ != "t" and b.blocks[bj_]["s"][si_]["rv"]["k"] == "discr"))
+            if used:
+                continue
+            # blocks of the inner loop body that can reach the call
+            body_blocks = {x for x in b.reachable_from(h1) if bi in b.reachable_from(x, avoid={h1}) or x == bi}
+            reads_anchor = False
+            for x in body_blocks:
+                blk = b.blocks[x]
+                places = [s_["p"] for s_ in blk["s"]]
+                for s_ in blk["s"]:
+                    from mir import rvalue_places
+                    places.extend(rvalue_places(s_["rv"]))
+                    rv = s_["rv"]
+                    if rv["k"] == "agg" and rv.get("agg") == "closure":
+                        cb = F.body(rv["def"])
+                        if cb is not None:
+                            for _, _, p2, _ in _ap(cb):
+                                if any(e[0] == "f" and e[3] == CELL and e[4] == "SpillCell" and e[2] == "a" for e in place_proj(p2)):
+                                    reads_anchor = True
+                for p2 in places:
+                    if any(e[0] == "f" and e[3] == CELL and e[4] == "SpillCell" and e[2] == "a" for e in place_proj(p2)):
+                        reads_anchor = True
+            # the call is conditional inside the loop body (some block of the body branches around it)
+            conditional = any(b.term(x)["k"] == "switch" and not all(bi in b.reachable_from(s_, avoid={h1}) for s_ in b.succs(x)) for x in body_blocks if x != bi)
+            ok = reads_anchor and conditional
+            k += 1
+            f, l = b.loc(bi)
+            label = fn
+            from rules_um import DIFF as _DIFF
+            for sbi, tg, wild, info in enum_switches(b, _DIFF):
+                for vn, entry in tg.items():
+                    if vn is not None and bi in arm_region(b, sbi, entry):
+                        label = "%s[Diff::%s]" % (fn, vn)
+            if not ok and label in OWN_SPILL_EXCEPT:
+                ck.ob(rule, "%s|spill-cleanup|ownership" % label, True, OWN_SPILL_EXCEPT[label], nontrivial=False)
+                continue
+            ck.ob(rule, "%s|spill-cleanup#%d|ownership" % (label, k), ok,
+                  "%s clears cells of a spill block without first testing that the cell is a SpillCell anchored at this formula: user content inside a stale block would be erased"
+                  % fn, f, l, sample={"fn": fn, "reads_anchor_field": reads_anchor, "conditional": conditional})
+
+
+WORKSHEET = "ironcalc_base::types::Worksheet"
+NAME_EXCEPT = {
+    ("new_sheet", "new_empty_worksheet"): "generated name: the localized base name (a constant per language) plus a counter, looped until no "
+                                          "existing name matches case-insensitively; valid by construction (letters and digits, < 31 chars)",
+    ("new_empty", "new_empty_worksheet"): "first sheet of a new workbook: a constant per language",
+}
+
+
+def wellformed_guards(ck, F):
+    """C27 guards at the writers: NAME-GUARD, ID-FRESH, GRID-GUARD."""
+    from rules_sel import validated_at
+    P = Program(F)
+    # ---------------- NAME-GUARD
+    R = "NAME-GUARD"
+    sites = []
+    for path in sorted(F.body_paths()):
+        h = F.heads[path]
+        if h["crate"] != "ironcalc_base" or h.get("impl_trait"):
+            continue
+        cs = " ".join(F.calls.get(path, []))
+        if "set_name" not in cs and "new_empty_worksheet" not in cs and '"name"' not in F._raw[path]:
+            continue
+        b = F.body(path)
+        for bi, t in b.calls_to("Worksheet::set_name"):
+            sites.append((b, bi, t["args"][1], "set_name"))
+        for bi, t in b.calls_to("Model::new_empty_worksheet"):
+            sites.append((b, bi, t["args"][0], "new_empty_worksheet"))
+        for bi, si, s in b.stmts():
+            if place_proj(s["p"]) and s["rv"]["k"] == "use":
+                fs = [e for e in place_proj(s["p"]) if e[0] == "f"]
+                if fs and fs[-1][3] == WORKSHEET and fs[-1][2] == "name" and h["name"] != "set_name":
+                    sites.append((b, bi, s["rv"]["o"], "field-store"))
+    ck.ob(R, "sites", len(sites) >= 4, "expected the rename, insert, new-sheet and duplicate name writers, found %d" % len(sites))
+    for b, bi, op, kind in sites:
+        h = F.heads[b.path]
+        f, l = b.loc(bi)
+        key = "%s|%s" % (h["name"], kind)
+        if (h["name"], kind) in NAME_EXCEPT:
+            ck.ob(R, key, True, NAME_EXCEPT[(h["name"], kind)], nontrivial=False)
+            continue
+        ok = validated_at(b, bi, op, ("is_valid_sheet_name",))
+        # uniqueness: the function consults the existing names before the write
+        uniq = any(b.dominates(cb, bi) for cb, _ in b.calls_to("Workbook::get_worksheet_names", "Model::get_sheet_index_by_name"))
+        ck.ob(R, key + "|valid", ok,
+              "%s gives a worksheet a name that did not pass is_valid_sheet_name on every path" % h["name"], f, l,
+              sample={"fn": h["name"], "writer": kind, "validated": ok})
+        ck.ob(R, key + "|unique", uniq,
+              "%s gives a worksheet a name without consulting the existing sheet names first" % h["name"], f, l)
+    # ---------------- ID-FRESH
+    R = "ID-FRESH"
+    n = 0
+    for path in sorted(F.body_paths()):
+        h = F.heads[path]
+        if h["crate"] != "ironcalc_base" or h.get("impl_trait"):
+            continue
+        b = F.body(path) if ("new_empty_worksheet" in " ".join(F.calls.get(path, [])) or '"sheet_id"' in F._raw[path]) else None
+        if b is None:
+            continue
+        cands = [(bi, t["args"][1], "new_empty_worksheet") for bi, t in b.calls_to("Model::new_empty_worksheet")]
+        for bi, si, s in b.stmts():
+            if place_proj(s["p"]) and s["rv"]["k"] == "use":
+                fs = [e for e in place_proj(s["p"]) if e[0] == "f"]
+                if fs and fs[-1][3] == WORKSHEET and fs[-1][2] == "sheet_id":
+                    cands.append((bi, s["rv"]["o"], "field-store"))
+        for bi, op, kind in cands:
+            n += 1
+            sr = sources(b, op)
+            calls = {x[1].rsplit("::", 1)[-1] for x in sr if x[0] == "call"}
+            params = {x[1] for x in sr if x[0] == "param"}
+            consts = sr <= {("const",)}
+            ok = "get_new_sheet_id" in calls or (params <= {"sheet_id"} and bool(params)) or (consts and h["name"] == "new_empty")
+            f, l = b.loc(bi)
+            ck.ob(R, "%s|%s" % (h["name"], kind), ok,
+                  "%s creates a worksheet whose sheet_id comes from %s, neither get_new_sheet_id() nor a captured id" % (h["name"], sorted(map(str, sr))), f, l,
+                  sample={"fn": h["name"], "sources": sorted(map(str, sr))})
+    ck.ob(R, "sites", n >= 3, "expected id assignments in new_sheet, insert_sheet, duplicate_sheet, found %d" % n)
+    # ---------------- GRID-GUARD
+    R = "GRID-GUARD"
+    uc = ck.need(F.one, "types::Worksheet::update_cell")
+    ins = [(bi, t) for bi, t in uc.calls() if (uc.callee_q(t) or "").endswith("HashMap::insert")]
+    ck.ob(R, "update_cell|insert-sites", len(ins) >= 2, "update_cell: expected inserts into the row map and the sheet map", uc.file, uc.line)
+    for k, (bi, t) in enumerate(ins):
+        okr = any(validated_at(uc, bi, a, ("is_valid_row",)) for a in t["args"][1:2]) or validated_at(uc, bi, {"c": {"l": uc.arg_local("row")}}, ("is_valid_row",))
+        okc = validated_at(uc, bi, {"c": {"l": uc.arg_local("column")}}, ("is_valid_column_number",))
+        ck.ob(R, "update_cell|insert#%d|row-and-column-validated" % k, okr and okc,
+              "update_cell inserts a cell on a path where row/column did not pass is_valid_row / is_valid_column_number", *uc.loc(bi),
+              sample={"row_validated": okr, "column_validated": okc})
+    # who may insert into sheet_data directly
+    allowed = {"update_cell": "validated above",
+               "apply_undo_diff_list": "undo of DeleteRows restores whole row maps under the row keys recorded in the diff",
+               "decode_in_place": "bitcode decode"}
+    for path, d in sorted(P.direct.items()):
+        if (WORKSHEET, "sheet_data") not in d:
+            continue
+        b = F.body(path)
+        inserts = False
+        for bi, t in b.calls():
+            q = b.callee_q(t) or ""
+            if q.rsplit("::", 1)[-1] in ("insert", "entry", "extend") and t["args"]:
+                rt = b.ref_target(t["args"][0])
+                if rt and [e for e in place_proj(rt) if e[0] == "f" and (e[3], e[2]) == (WORKSHEET, "sheet_data")]:
+                    inserts = True
+        for bi, si, s in b.stmts():
+            fs = [e for e in place_proj(s["p"]) if e[0] == "f"]
+            if fs and (fs[-1][3], fs[-1][2]) == (WORKSHEET, "sheet_data") and any(e[0] == "*" for e in place_proj(s["p"])):
+                inserts = True
+        if not inserts:
+            continue
+        h = F.heads[path]
+        ck.ob(R, "sheet_data-inserter|%s" % h["name"], h["name"] in allowed,
+              "%s inserts into Worksheet.sheet_data directly, bypassing update_cell's grid validation" % F.qname_of(path), h["file"], h["line"],
+              sample={"fn": h["name"]})
